@@ -395,6 +395,16 @@ func genC16(e *emitter, tier string, seed uint64) {
 		e.run("C16.out", n, sc)
 		e.run("C16.utxo", n, sc)
 	}
+	// input / output counts on either side of the one-byte count prefix, in particular with no inputs at all (a transaction
+	// still being built: the parser reads the output count early on that path)
+	for _, c := range [][2]int{{0, 252}, {0, 253}, {0, 254}, {0, 300}, {1, 253}, {253, 0}, {253, 1}, {254, 253}} {
+		tx := genTx(r, c[0], c[1], false)
+		for _, o := range tx.Outputs {
+			o.Satoshis %= 2100000000000001
+		}
+		e.run("C16.tx", descTx(tx))
+		e.note("tx.count-boundary")
+	}
 	// scripts whose parts are awkward for the asm field of the node dialect: zero-length PUSHDATA forms, truncated
 	// pushes, data scripts with short numbers
 	for _, sc := range []string{"4c00", "4d0000", "4e00000000", "006a04746573744c00", "76a94c0088ac", "6a4c00", "514d0000ae", "4c", "4d01", "4e010000", "006a0100", "6a02ffff", "00"} {
